@@ -13,6 +13,8 @@ func runExtraProfile(name, root string, w *bufio.Writer, seed uint64, n, ops int
 		genDamage(w, run, seed, n, ops > 1)
 	case "lock":
 		genLock(w, root, seed, n, ops)
+	case "notify":
+		genNotifyProfile(w, seed, n, ops)
 	default:
 		return false
 	}
